@@ -40,3 +40,37 @@ func TestAddFarAgainstBigInt(t *testing.T) {
 		}
 	}
 }
+
+// The sticky form used for gaps beyond what can be spelled out must round like the spelled-out sum.
+func TestAddFarStickyAgainstAddFar(t *testing.T) {
+	vals := []string{"1", "5", "10", "999", "1000", "12345", "100001", "7", "95", "949999", "5000000001", "99999999999999999999"}
+	n := 0
+	for _, ad := range vals {
+		for _, bd := range vals {
+			for _, gap := range []int64{1000, 1001, 1500} {
+				for _, an := range []bool{false, true} {
+					for _, bn := range []bool{false, true} {
+						a := MkFinite(an, ad, 3)
+						b := MkFinite(bn, bd, a.Exp-int64(len(a.Digits))-gap)
+						full, _ := addFar(a, b)
+						for _, prec := range []uint64{1, 2, 3, 4, 5, 6, 7, 10, 19, 20, 21, 25, 60, 900} {
+							st, ok := addFarSticky(a, b, prec)
+							if !ok {
+								t.Fatalf("addFarSticky declined gap %d prec %d", gap, prec)
+							}
+							for m := Mode(0); m < 6; m++ {
+								wv, wa := Round(full, prec, m)
+								gv, ga := Round(st, prec, m)
+								if !gv.Equal(wv) || ga != wa {
+									t.Fatalf("%v + %v at prec %d mode %v: sticky form %v %v, spelled out %v %v", a, b, prec, m, gv, ga, wv, wa)
+								}
+								n++
+							}
+						}
+					}
+				}
+			}
+		}
+	}
+	t.Logf("%d comparisons", n)
+}
